@@ -15,12 +15,17 @@ impl PartialEqSpecImpl for Value {
     open spec fn obeys_eq_spec() -> bool { false }
     open spec fn eq_spec(&self, other: &Value) -> bool { veq(vview(*self), vview(*other)) }
 }
+impl PartialEqSpecImpl for Map {
+    open spec fn obeys_eq_spec() -> bool { false }
+    open spec fn eq_spec(&self, other: &Map) -> bool { veq(SVal::Map(amap(self.map@)), SVal::Map(amap(other.map@))) }
+}
 impl PartialOrdSpecImpl for Value {
     open spec fn obeys_partial_cmp_spec() -> bool { false }
     open spec fn partial_cmp_spec(&self, other: &Value) -> Option<Ordering> { vcmp(vview(*self), vview(*other)) }
 }
 broadcast use {vstd::std_specs::hash::group_hash_axioms, ax::axiom_string_ext, ax::axiom_i64_try_from_u64};
 //@assume objects.cmp_int_float
+//@verify objects.map_eq
 //@verify objects.eq
 //@verify objects.partial_cmp
 //@verify objects.to_bool
